@@ -94,3 +94,44 @@ Example C20_nonvacuous_run :
                  /\ keys st' = ["In"; "Mid"; "Top"]
                  /\ flat_map refs ds = ["#/x/Top"; "#/x/Mid"].
 Proof. eexists _, _. split; [vm_compute; reflexivity|]. split; reflexivity. Qed.
+
+(* ---- kernel K9 (translated from /repo on this run): which prefix / all_refs the builder uses ---- *)
+From Verif Require Import PyK PyK_schema K9Proofs.
+From VerifGen Require Import K9.
+
+(* single build with ref_prefix=p: the model configuration read from the translated context uses
+   p without trailing slashes (the dialect pointer when nothing is left), never a trailing slash *)
+Theorem C20_K9_prefix : forall wd ar D p pl, In D dialects -> In ar tri ->
+  exists c cfg, build_ctx KNone wd ar D (KStr p) pl = Ok c /\ cfg_of_ctx c = Some cfg /\
+    c_prefix cfg = (if String.eqb (rstrip_slash p) "" then pointer_of D else rstrip_slash p) /\
+    (rstrip_slash p <> "" -> ends_with_slash (c_prefix cfg) = false).
+Proof. exact K9_model_prefix. Qed.
+Print Assumptions C20_K9_prefix.
+
+Theorem C20_K9_dialect_defaults :
+  pointer_of OPEN_API_3_1 = "#/components/schemas" /\ dialect_all_refs OPEN_API_3_1 = KBool true /\
+  pointer_of DRAFT_2020_12 = "#/$defs" /\ dialect_all_refs DRAFT_2020_12 = KBool false /\
+  pointer_of KNone = "#/$defs" /\ dialect_all_refs KNone = KBool false.
+Proof. exact K9_dialect_defaults. Qed.
+Print Assumptions C20_K9_dialect_defaults.
+
+Theorem C20_K9_builder : forall D ar p pl, In D [DRAFT_2020_12; OPEN_API_3_1] -> In ar tri ->
+  exists c, builder_init (KNs []) D ar (KStr p) pl = Ok c
+            /\ k_getattr2 c (KStr "ref_prefix") = Ok (KStr (rstrip_slash p))
+            /\ k_getattr2 c (KStr "all_refs") = Ok (match ar with KNone => dialect_all_refs D | _ => ar end)
+            /\ k_getattr2 c (KStr "dialect") = Ok D.
+Proof. exact K9_builder_init. Qed.
+Print Assumptions C20_K9_builder.
+
+(* the emitted reference is <used prefix>/<name> and <name> is the very key the definition is registered under *)
+Theorem C20_K9_ref_names_key : forall D ar q defs pl name tn, In D [DRAFT_2020_12; OPEN_API_3_1] ->
+  let c := KNs [("dialect", D); ("definitions", defs); ("all_refs", ar); ("ref_prefix", KStr q); ("plugins", pl)] in
+  ref_of c (KStr name) tn = Ok (KStr (used_prefix q D ++ "/" ++ name)) /\
+  reg_key (KStr name) tn = Ok (KStr name).
+Proof. exact K9_ref_shape. Qed.
+Print Assumptions C20_K9_ref_names_key.
+
+Example C20_K9_nonvacuous :
+  exists c, build_ctx KNone (KBool true) KNone OPEN_API_3_1 (KStr "#/x//") (KTuple []) = Ok c
+            /\ cfg_of_ctx c = Some (mkcfg true "#/x").
+Proof. eexists. split; reflexivity. Qed.
